@@ -153,6 +153,8 @@ class USBDeviceHandle(object):
     def close(self):
         self._log("close")
         self.closed = True
+        if getattr(self.device, "close_error", False):
+            raise USBErrorIO()
 
     def bulkRead(self, endpoint, length, timeout=0):
         err = self._check("bulkRead")
@@ -192,6 +194,7 @@ class USBDevice(object):
         self.ports = list(ports)
         self.kernel_driver = kernel_driver
         self.release_error = False
+        self.close_error = False
         self.errors = {}            # index among bulk transfers -> exception class
         eps = [USBEndpoint(EP_IN), USBEndpoint(EP_OUT)]
         self.settings = [USBInterfaceSetting(0, 0x08, 0x06, 0x50, [USBEndpoint(0x82), USBEndpoint(0x02)])]
